@@ -20,7 +20,7 @@ from synapgrad import nn
 from synapgrad.nn.modules import Module, Parameter, Sequential
 FIRST = %(first)r
 MAXLEN = %(maxlen)d
-NACT = 27
+NACT = 31
 
 
 class M(Module):
@@ -38,11 +38,11 @@ class Tag(Module):
 
 
 def _world():
-    mods = [M(), M()]
+    mods = [M(), M(), M()]          # m0 may hold m1, m1 may hold m2 (two levels of nesting)
     pars = [Parameter(np.ones((i + 1,), dtype=np.float32), requires_grad=True) for i in range(2)]
-    # model: per module an ordered registry name -> ('p', i) | ('m', j); training flags; per parameter req / grad state
-    reg = [(OrderedDict(), OrderedDict()), (OrderedDict(), OrderedDict())]
-    return mods, pars, reg, [True, True], [True, True], [None, None]
+    # model: per module two ordered registries (parameters, submodules); training flags; per parameter req / grad state
+    reg = [(OrderedDict(), OrderedDict()), (OrderedDict(), OrderedDict()), (OrderedDict(), OrderedDict())]
+    return mods, pars, reg, [True, True, True], [True, True], [None, None]
 
 
 def _assign(reg, mi, name, entry):
@@ -86,7 +86,7 @@ def _reach_mods(reg, mi, acc=None):
 
 
 def _check(mods, pars, reg, training, req, gstate):
-    for mi in range(2):
+    for mi in range(3):
         got = mods[mi].parameters()
         want = _reach_params(reg, mi)
         if len(got) != len(want) or not all(g is pars[w] for g, w in zip(got, want)):
@@ -187,8 +187,17 @@ def %(name)s(rest: List[int]) -> bool:
         elif a == 25:
             mods[1].unfreeze()
             for p in _reach_params(reg, 1): req[p] = True
-        else:
+        elif a == 26:
             mods[1].b = 7; _assign(reg, 1, "b", None)
+        elif a == 27:
+            mods[1].c = mods[2]; _assign(reg, 1, "c", ("m", 2))
+        elif a == 28:
+            mods[2].a = pars[1]; _assign(reg, 2, "a", ("p", 1))
+        elif a == 29:
+            mods[2].eval()
+            for m in _reach_mods(reg, 2): training[m] = False
+        else:
+            mods[2].a = pars[0]; _assign(reg, 2, "a", ("p", 0))
         ok = ok and _check(mods, pars, reg, training, req, gstate)
     return ok
 
@@ -254,16 +263,16 @@ def main(tier, seed):
     t0 = time.time()
     maxlen = 2 if tier == "quick" else 3
     files = []
-    for first in range(27):
+    for first in range(31):
         name = "h_p%d" % first
         # quick: every history of length <= 2, and length <= 3 behind the (re-)registration actions
-        ml = maxlen if (tier != "quick" or first in (2, 3, 4, 12, 13, 9)) else 1
+        ml = maxlen if (tier != "quick" or first in (2, 3, 13, 27)) else 1
         files.append((e2.write_module("c12_" + name, H % {"first": first, "maxlen": ml, "name": name}), name, "registry", first, ml))
     for first in (0, 1):
         name = "seq_p%d" % first
         files.append((e2.write_module("c12_" + name, HSEQ % {"first": first, "maxlen": 3 if tier == "quick" else 4, "name": name}),
                       name, "sequential", first, 3))
-    timeout = 120 if tier == "quick" else 1500
+    timeout = 300 if tier == "quick" else 2400
     procs = int(os.environ.get("VERIF_PROCS", "16"))
 
     def job(item):
@@ -277,8 +286,8 @@ def main(tier, seed):
     with ThreadPoolExecutor(max_workers=procs) as ex:
         results = list(ex.map(job, files))
     return c07.finish(PROP, tier, seed, results, t0, {
-        "universe": "2 modules, 2 parameters (sizes 1, 2), attribute names a/b; 27 concrete actions (assign parameter / submodule / "
+        "universe": "3 modules (two levels of nesting), 2 parameters (sizes 1, 2), attribute names a/b/c; 31 concrete actions (assign parameter / submodule / "
                     "None / int, register_parameter/module, train/eval, freeze/unfreeze, zero_grad, set a gradient)",
-        "history": "first action fixed per partition + <= %d symbolic actions (quick: +1 everywhere, +2 behind the six "
+        "history": "first action fixed per partition + <= %d symbolic actions (quick: +1 everywhere, +2 behind four "
                    "(re-)registration actions)" % maxlen,
         "sequential": "positional and OrderedDict construction from <= %d submodules chosen among 4 (repeats allowed)" % (3 if tier == "quick" else 4)})
